@@ -117,6 +117,7 @@ def c20_runner(binp, prop, tier, seed, extra, nshards, run, root, work, env0, lo
     env.update(run.get("env") or {})
     tag = "." + run["variant"] + run.get("tag", "")
     deadline = _time.time() + run.get("watchdog", 900)
+    soft_end = _time.time() + run.get("deadline", 100)
     state = []
     for k in range(nshards):
         state.append({"k": k, "start_after": None, "proc": None, "parts": [], "deaths": [], "attempt": 0, "done": False, "status": "ok"})
@@ -131,6 +132,8 @@ def c20_runner(binp, prop, tier, seed, extra, nshards, run, root, work, env0, lo
         argv = [binp, prop, "--tier", tier, "--seed", str(seed), "--shard", f"{st['k']}/{nshards}", "--out", out, "--journal", jr] + extra
         if st["start_after"] is not None:
             argv += ["--start-after", str(st["start_after"])]
+            # the soft deadline covers the whole run, not each restarted worker (later --deadline wins)
+            argv += ["--deadline", str(max(1, int(soft_end - _time.time())))]
         errp = _os.path.join(work, f"{prop}{tag}.{st['k']}.{st['attempt']}.err")
         st["proc"] = _sp.Popen(argv, cwd=root, env=env, stdout=_sp.DEVNULL, stderr=open(errp, "w"))
         st["out"], st["journal"], st["errp"] = out, jr, errp
